@@ -30,6 +30,7 @@ pub enum Op {
     Tedge(usize, usize),
     Oedge(usize, usize),
     UpDrop(usize),
+    Deref(usize, usize),
     Collect,
     Reset,
     Brief,
@@ -54,6 +55,7 @@ pub fn parse(line: &str) -> Op {
         ["edge", a, b] => match (n(a), n(b)) { (Some(a), Some(b)) => Op::Edge(a, b), _ => Op::Bad },
         ["unedge", a, b] => match (n(a), n(b)) { (Some(a), Some(b)) => Op::Unedge(a, b), _ => Op::Bad },
         ["tedge", a, b] => match (n(a), n(b)) { (Some(a), Some(b)) => Op::Tedge(a, b), _ => Op::Bad },
+        ["deref", a, b] => match (n(a), n(b)) { (Some(a), Some(b)) => Op::Deref(a, b), _ => Op::Bad },
         ["oedge", a, b] => match (n(a), n(b)) { (Some(a), Some(b)) => Op::Oedge(a, b), _ => Op::Bad },
         _ => Op::Bad,
     }
@@ -69,6 +71,7 @@ pub fn show(op: &Op) -> String {
         Op::Tedge(a, b) => format!("tedge {a} {b}"),
         Op::Oedge(a, b) => format!("oedge {a} {b}"),
         Op::UpDrop(a) => format!("updrop {a}"),
+        Op::Deref(a, b) => format!("deref {a} {b}"),
         Op::Collect => "collect".into(),
         Op::Reset => "---".into(),
         Op::Brief => "brief".into(),
@@ -157,6 +160,15 @@ impl Machine {
                         t.dec_ref();
                     }
                     _ => return None,
+                }
+            }
+            Op::Deref(a, b) => {
+                // a new handle on b cloned out of the held object a that owns a reference to it
+                if !(a < n && self.handles[a] > 0 && !self.objs[a].gc.v_freed()) { return None; }
+                let t = self.objs[a].owned.lock().unwrap().iter().find(|t| t.v_id() as usize == b).cloned();
+                match t {
+                    Some(t) => { t.inc_ref(); self.handles[b] += 1; }
+                    None => return None,
                 }
             }
             Op::UpDrop(a) => {
